@@ -93,7 +93,7 @@ pub fn run(ctx: &mut Ctx) {
     let cases = ctx.cases(2000, 10);
     let max = ctx.pick(300, 1500);
     ctx.forall("sequences", cases, gen::seq_spec(CodecId::Dna, max), seq_case);
-    let lens = gen::long_lens(ctx.thorough());
+    let lens = gen::long_lens(ctx.thorough(), ctx.seed);
     ctx.forall_lens("sequences_long", &lens, |n| gen::seq_spec_n(CodecId::Dna, n), seq_case);
     ctx.require_class("codon_straddles_word");
     ctx.require_class("offset");
